@@ -38,6 +38,7 @@ func genDiff(t *rapid.T) DiffCase {
 	if pct(t, 15, "quirky") {
 		quirk = rapid.SampledFrom([]string{QFrac, QArc80, QTag80, QT61Hi, QBMPRes}).Draw(t, "quirkkind")
 	}
+	hugeBudget = 1
 	c.V = genVal(t, &c.T, 0, quirk)
 	if !pct(t, 40, "canonical") {
 		c.M = genMuts(t, 1, 3)
@@ -150,12 +151,35 @@ func checkDiff(t *testing.T, c DiffCase) harness.Verdict {
 		}
 		mutated = !bytes.Equal(input, d)
 	}
-	input = append(append([]byte{}, input...), c.Rest...)
+	rest := c.Rest
+	if len(d) == 0 {
+		// an absent (or canonically omitted) optional top-level element: the input is EMPTY; trailing bytes would
+		// be read as the element itself
+		rest = nil
+		v.Class("input:empty-optional-root")
+	}
+	input = append(append([]byte{}, input...), rest...)
 	tr := judge(&v, td, input)
+	if tr.std.ok() && tr.std.panicked == "" {
+		// chaining: what the reference decoder left over is fed into a second call (often empty = exhausted input)
+		var v2 harness.Verdict
+		tr2 := judge(&v2, td, tr.std.rest)
+		v.Violations = append(v.Violations, v2.Violations...)
+		switch {
+		case len(tr.std.rest) == 0 && tr2.std.ok():
+			v.Class("chain:empty-rest-accepted")
+		case len(tr.std.rest) == 0:
+			v.Class("chain:empty-rest-rejected")
+		case tr2.std.ok():
+			v.Class("chain:rest-accepted")
+		default:
+			v.Class("chain:rest-rejected")
+		}
+	}
 	addClasses(&v, ctx, "")
 	depth := td.Depth()
 	v.Class(fmt.Sprintf("depth:%d", depth))
-	if len(c.Rest) > 0 {
+	if len(rest) > 0 {
 		v.Class("rest")
 	}
 	laxOnly := tr.lax.ok() && !tr.strict.ok()
@@ -168,7 +192,7 @@ func checkDiff(t *testing.T, c DiffCase) harness.Verdict {
 		v.Class("input:canonical")
 	}
 	if !mutated && !ctx.noExpect && !ctx.implGen && tr.std.panicked == "" && tr.strict.panicked == "" && tr.lax.panicked == "" {
-		expectCanonical(&v, td, &tr, ctx, d, exp, c.Rest)
+		expectCanonical(&v, td, &tr, ctx, d, exp, rest)
 	}
 	v.Sample = map[string]any{"type": td.GoType(forkLib).String(), "params": td.Params(), "input": short(input), "std_err": errText(tr.std.err), "strict_err": errText(tr.strict.err), "lax_err": errText(tr.lax.err)}
 	return v
